@@ -423,6 +423,16 @@ def method_cached_arg_by_id(func: CallableT) -> CallableT:
     # get() method of this dictionary, localized for efficiency.
     args_flat_to_exception_get = args_flat_to_exception.get
 
+    # Dictionary mapping the same tuple to the 2-tuple "(self_or_cls, arg)" of
+    # the objects whose identifiers comprise that tuple. Object identifiers are
+    # only unique among *LIVING* objects: CPython reassigns the identifier of a
+    # garbage-collected object to subsequently instantiated objects. Strongly
+    # referencing these objects for the lifetime of their cache entry prevents
+    # their identifiers from being reassigned to different objects, which would
+    # otherwise erroneously be returned the value (or raised the exception)
+    # cached for the prior objects with those identifiers.
+    args_flat_to_args: dict[tuple, tuple] = {}
+
     # ....................{ CLOSURE                        }....................
     @wraps(func)
     def _method_cached(self_or_cls, arg):
@@ -475,6 +485,10 @@ def method_cached_arg_by_id(func: CallableT) -> CallableT:
             if return_value is not SENTINEL:
                 return return_value
             # Else, this callable has yet to be called with these parameters.
+
+            # Keep these objects alive for as long as the value or exception
+            # cached below for their identifiers remains cached.
+            args_flat_to_args[args_flat] = (self_or_cls, arg)
 
             # Attempt to...
             try:
